@@ -152,6 +152,9 @@ int gen_matrix(const case_t *c, rng_t *r, csc_t *A)
             for (int_t a = par[j] < n ? par[par[j]] : n; a < n; a = par[a]) if (rng_u01(r) < xanc) P(j, a) = 1;
         }
         free(par);
+    } else if (!strcmp(fam, "wilk")) {
+        /* Wilkinson's growth pattern: full strict lower triangle, diagonal, full last column (values set below) */
+        for (int_t j = 0; j < n; ++j) { P(j, j) = 2; for (int_t i = j + 1; i < m; ++i) P(i, j) = 1; if (j < n - 1) P(j, n - 1) = 1; }
     } else if (!strcmp(fam, "skyline")) {
         /* profile matrix: (dense-ish) lower triangle, and in the upper triangle column c holds rows c-len..c-1 with its own
            len in 0..maxlen: U segments of every length that start in the middle of supernodes and panels */
@@ -393,6 +396,32 @@ int gen_matrix(const case_t *c, rng_t *r, csc_t *A)
         /* dupcol=a,b : column b := column a (values and structure) -> exact numerical singularity */
     }
 
+    if (cint(c, "lapl", 0) && m == n) {
+        /* unit-weight, weakly dominant M-matrix ("grounded Laplacian" of the pattern): off-diagonal entries -1, diagonal =
+           number of off-diagonal entries of its row (lapl=1) or column (lapl=2), +1 at every 7th vertex.  Magnitudes tie
+           exactly all over the elimination, the diagonal stays nonzero: pivot-preference rules are exercised at their
+           boundary (every pivot candidate set contains entries equal in magnitude to the diagonal) */
+        int byrow = cint(c, "lapl", 0) == 1;
+        long *deg = xcalloc(n + 1, sizeof(long));
+        for (int_t j = 0; j < n; ++j) for (int_t k = A->colptr[j]; k < A->colptr[j + 1]; ++k) { int_t i = A->rowind[k]; if (i != j) deg[byrow ? i : j]++; }
+        for (int_t j = 0; j < n; ++j) for (int_t k = A->colptr[j]; k < A->colptr[j + 1]; ++k) {
+            int_t i = A->rowind[k];
+            if (i == j) A->val[k] = MKE((double)(deg[j] + ((j % 7) == 0 ? 1 : 0) + (deg[j] == 0 ? 1 : 0)), 0);
+            else A->val[k] = MKE(-1, 0);
+        }
+        free(deg);
+    }
+    if (!strcmp(fam, "wilk") && m == n) {
+        /* 1 on the diagonal and in the last column, -theta below the diagonal (theta in [wtheta - 0.1, wtheta]): element
+           growth up to (1+theta)^(n-1) under partial pivoting, so the unrefined solve has a backward error far above u
+           and iterative refinement has real work to do */
+        double th = cdbl(c, "wtheta", 1.0);
+        for (int_t j = 0; j < n; ++j) for (int_t k = A->colptr[j]; k < A->colptr[j + 1]; ++k) {
+            int_t i = A->rowind[k];
+            if (i == j || j == n - 1) A->val[k] = MKE(1, 0);
+            else A->val[k] = MKE(-(th - 0.1 * rng_u01(r)), 0);
+        }
+    }
     /* unitri=1|2: keep the upper (1) / lower (2) triangle, unit diagonal, off-diagonal entries +-1 (complex: also +-i):
        with the natural ordering every factorization and solve step is exact integer arithmetic, so solutions with
        exactly zero components can be constructed (code that skips zero entries is exercised) */
